@@ -145,9 +145,19 @@ func checkJPEG(o *core.Outcome, stream []byte, ls bool, sof byte, im *gen.Image)
 		o.Fail = fail("header", "%d scans / Ns mismatch", len(j.Scans))
 		return nil
 	}
+	if j.Scans[0].FillBytes > 0 {
+		// T.81 allows 0xFF fill bytes in front of a marker, but none of the library's encoders
+		// writes any: an 0xFF directly in front of EOI in their output is the last byte of the
+		// entropy-coded data left without its stuffed zero, and a decoder drops it as fill.
+		o.Fail = fail("malformed", "entropy-coded data ends in an unescaped 0xFF (it reads as a fill byte in front of the next marker): ...%x", stream[max(0, len(stream)-6):])
+		return nil
+	}
 	if j.Scans[0].FFCount > 0 {
 		o.Label("stuffing-exercised")
 		o.NonTrivial = true
+	}
+	if n := len(j.Scans[0].ECS); n >= 2 && j.Scans[0].ECS[n-2] == 0xFF {
+		o.Label("scan-ends-in-stuffed-FF")
 	}
 	return j
 }
@@ -447,3 +457,34 @@ func TestPackets(t *testing.T) {
 	}
 }
 func TestReplay(t *testing.T) { core.RunReplay(t, ID, &Case{}, Check) }
+
+// TestTails: very many tiny noise images through every JPEG and JPEG-LS encoder. What varies is
+// the tail of the scan - how many bits are left in the last byte and whether padding turns it
+// into 0xFF, whether the JPEG-LS bit writer's 32-bit buffer is exactly full at the end -, the
+// place where a stuffing rule is easiest to lose (label scan-ends-in-stuffed-FF).
+func TestTails(t *testing.T) {
+	g := rapid.Custom(func(t *rapid.T) *Case {
+		enc := rapid.SampledFrom([]string{"baseline", "extended8", "extended12", "lossless", "sv1", "jpegls", "jpegls", "jpegls", "jpegls-near", "jpegls-near"}).Draw(t, "enc")
+		im := &gen.Image{W: rapid.IntRange(1, 9).Draw(t, "w"), H: rapid.IntRange(1, 8).Draw(t, "h"), C: rapid.SampledFrom([]int{1, 1, 3}).Draw(t, "c"), P: 8, Class: "noise", Seed: rapid.Uint64().Draw(t, "seed")}
+		c := &Case{Enc: enc, Img: im}
+		switch enc {
+		case "baseline", "extended8":
+			c.Arg = rapid.SampledFrom([]int{100, 100, 90, 50}).Draw(t, "quality")
+		case "extended12":
+			im.P, im.C = 12, 1
+			c.Arg = rapid.SampledFrom([]int{100, 90}).Draw(t, "quality")
+		case "lossless":
+			im.P = rapid.SampledFrom([]int{8, 8, 12, 16}).Draw(t, "P")
+			c.Arg = rapid.IntRange(0, 7).Draw(t, "sel")
+		case "sv1":
+			im.P = rapid.SampledFrom([]int{8, 8, 12, 16}).Draw(t, "P")
+		case "jpegls":
+			im.P = rapid.SampledFrom([]int{8, 8, 8, 12, 16}).Draw(t, "P")
+		case "jpegls-near":
+			im.P = rapid.SampledFrom([]int{8, 8, 12}).Draw(t, "P")
+			c.Arg = rapid.IntRange(0, 3).Draw(t, "near")
+		}
+		return c
+	})
+	core.RunSharded(t, ID, 96000, 2400000, g, Check)
+}
